@@ -1,4 +1,4 @@
-import Litep2pVerif.Proofs.Service.KeepAlive
+import Litep2pVerif.Proofs.Service.KeepAliveReach
 import Litep2pVerif.Generated.Consts
 import Litep2pVerif.Proofs.Conn.Permits
 /-!
@@ -41,44 +41,152 @@ example :
       ((s3.subFail 10 0).map (fun s => exits s 10)) = some true := by
   refine ⟨Or.inr (Or.inl ⟨⟨0, 0, 10, true⟩, by decide, rfl⟩), by decide, by decide, by decide⟩
 
-/-- **Idle connections close exactly at `max_p (last_activity_p) + T`** (partial: the hypotheses
-`Armed` are not derived from reachability). Let no permit of `c` be around, and let every protocol
-either hold no active handle of `c` or track `c` with a started sleep that completes by
-`last_activity + T` (true whenever the protocol polled its service after the activity). When all
-protocols poll at time `now`, the loop exits iff for every protocol that still held `c` the timeout
-has elapsed since ITS last activity — i.e. exactly from `max` over the holders of
-`last_activity + T` on, and not before. -/
-theorem idle_closed_at_partial (s : Sys) (c : Nat) (hperm : permits s c = 0)
-    (hd : ∀ svc ∈ s.svcs, ∀ e ∈ svc.conns, Distinct e.2)
-    (harmed : ∀ svc ∈ s.svcs, svc.holds c = 0 ∨ Armed svc c s.now) :
-    exits s.pollAll c = true ↔
-      ∀ svc ∈ s.svcs, svc.holds c = 0 ∨ ∃ la, aget svc.tr.last c = some la ∧ la + svc.T ≤ s.now := by
-  rw [exits_pollAll s c hperm]
-  constructor
-  · intro h svc hs
-    have h0 := h svc hs
-    rcases harmed svc hs with hz | ⟨la, hla, hle, ht⟩
-    · exact Or.inl hz
-    · obtain ⟨k1, _⟩ := svc_poll_armed svc c s.now la (hd svc hs) hla hle ht
-      by_cases hlt : s.now < la + svc.T
-      · left; rw [← k1 hlt]; exact h0
-      · right; exact ⟨la, hla, by omega⟩
-  · intro h svc hs
-    rcases h svc hs with hz | ⟨la, hla, hge⟩
-    · have := svc_poll_le svc c s.now (hd svc hs); omega
-    · rcases harmed svc hs with hz | ⟨la', hla', hle, ht⟩
-      · have := svc_poll_le svc c s.now (hd svc hs); omega
-      · rw [hla] at hla'; cases hla'
-        exact (svc_poll_armed svc c s.now la (hd svc hs) hla hle ht).2 hge
+/-- **Idle connections close exactly at `last keep-alive activity + T`, not before and not later.**
 
-/-- Non-vacuity: activity of the keep-alive protocol at 50 (a failed open). The ping-like protocol
-lets go at 100, the keep-alive one at 150: at 149 the loop is still running, at 150 it exits. -/
+Quantified over every state reachable (`Reach`) from a system without connections by the real operations
+— a connection task announcing / closing a connection, taking a command, reporting an outbound or
+inbound substream or an open failure; a protocol calling `open_substream`, processing the next message
+of its channel, dropping a substream, polling its keep-alive tracker; the logical clock advancing — in
+any order and any number (`Sys.step` in `Model/Service/KeepAlive.lean`), for primary and secondary
+connections alike (nothing in the statement looks at the slot).
+
+**Environment hypothesis** (the guard of the `advance` step, `timersSettled`; fairness of the executor
+under a logical clock): the clock does not move while a protocol's tracker holds a sleep future that has
+been pushed but not polled yet, nor past the deadline of a started one — i.e. a protocol task is polled
+when it has a new timer and when a timer wakes it. Messages may wait in the channels for any length of
+time. This is what "at `t₀ + T`" means for the code as it is: `KeepAliveTracker` creates the
+`tokio::time::sleep` at the FIRST POLL of the pushed future, so the sleep for activity at `t₀` ends at
+`(first poll after t₀) + T`; under the hypothesis the first poll is at `t₀` (true for `TransportService`:
+`substream_activity` is only called inside `poll_next`, which goes on to poll the tracker or returns an
+event to the protocol's loop that polls again; or inside `open_substream`, after which the protocol's
+loop polls its service — the second is an assumption about protocol code, recorded in the plugin). A sleep
+that completes early relative to a later activity is re-armed with exactly the remaining time.
+
+For every reachable `s` and connection `c`:
+
+1. *never late, per protocol*: a protocol holding an active handle of `c` tracks `c` with
+   `last_activity ≤ now ≤ last_activity + T`, and `now < last_activity + T` if it has polled at this instant
+   (`Polled`): no handle survives a poll at `last_activity + T`.
+2. *never late, connection*: if no permit of `c` exists (no substream of a keep-alive protocol exists or
+   is being opened, nothing else in flight), every protocol has polled at this instant and every
+   `last_activity` of `c` that any protocol still has is at least that protocol's timeout ago, then the
+   loop exits (`rx.recv()` yields `None`).
+3. *never early, per protocol*: the only steps after which a protocol that held an active handle of `c`
+   holds none are that protocol processing a `ConnectionClosed` (the close path) and that protocol's
+   keep-alive poll at a time `≥ last_activity + T`.
+4. *never early, connection*: with no permit around, the step that makes the loop exit is one of those
+   two for some protocol `i` that held `c` — so the idle exit happens at a time `≥ last_activity_i + T_i`.
+
+Together: with no keep-alive substream existing or being opened after `t₀ =` the last activity, every
+protocol `i` keeps its handle exactly until its poll at `last_activity_i + T_i` (3, 1), the last one to
+let go is the one with the largest `last_activity_i + T_i = t₀ + T` (all `T_i` are the configured
+keep-alive timeout), and the loop exits at that poll (4, 2). -/
+theorem idle_closed_at {peer : Nat → Nat} {n : Nat} {s : Sys} (hr : Reach peer n s) (c : Nat) :
+    (∀ svc ∈ s.svcs, 0 < svc.holds c →
+      ∃ la, aget svc.tr.last c = some la ∧ la ≤ s.now ∧ s.now ≤ la + svc.T ∧
+        (Polled svc s.now → s.now < la + svc.T)) ∧
+    (permits s c = 0 →
+      (∀ svc ∈ s.svcs, Polled svc s.now ∧ ∀ la, aget svc.tr.last c = some la → la + svc.T ≤ s.now) →
+      exits s c = true) ∧
+    (∀ (l : Label) (n' : Nat) (s' : Sys) (i : Nat) (svc svc' : Svc), s.step peer n l = some (n', s') →
+      s.svcs[i]? = some svc → s'.svcs[i]? = some svc' → 0 < svc.holds c → svc'.holds c = 0 →
+      (l = .deliver i ∧ ∃ p c', svc' = (svc.onClosed p c').1) ∨
+      (l = .poll i ∧ svc' = svc.pollKeepAlive s.now ∧
+        ∃ la, aget svc.tr.last c = some la ∧ la + svc.T ≤ s.now)) ∧
+    (∀ (l : Label) (n' : Nat) (s' : Sys), s.step peer n l = some (n', s') → permits s c = 0 →
+      exits s c = false → exits s' c = true →
+      ∃ i svc, s.svcs[i]? = some svc ∧ 0 < svc.holds c ∧
+        ((l = .deliver i ∧ ∃ p c', s'.svcs[i]? = some (svc.onClosed p c').1) ∨
+         (l = .poll i ∧ ∃ la, aget svc.tr.last c = some la ∧ la + svc.T ≤ s.now))) :=
+  ⟨fun svc hsvc hpos => (hr.inv.svc svc hsvc).holder c hpos,
+   fun hperm hidle => idle_exits hr c hperm hidle,
+   fun l _ _ i svc svc' hst hi hi' hpos hz => never_early hr l hst i svc svc' hi hi' c hpos hz,
+   fun l _ _ hst hperm h0 h1 => last_holder_never_early hr l hst c hperm h0 h1⟩
+
+/-- … and the environment hypothesis never blocks the clock for good: a keep-alive poll leaves every
+sleep of the protocol started and incomplete, so once every protocol has polled the clock can advance —
+up to the earliest deadline. -/
+theorem poll_settles {peer : Nat → Nat} {n : Nat} {s : Sys} (hr : Reach peer n s) :
+    ∀ svc ∈ s.svcs, Polled (svc.pollKeepAlive s.now) s.now :=
+  fun svc hsvc => pollKeepAlive_polled svc (hr.inv.svc svc hsvc)
+
+/-- The example run: protocols 0 (keep-alive) and 1 (ping-like), `T = 100`. Connection `10` is announced
+and processed at 0; at 50 protocol 0 opens a substream, the task takes the command and the negotiation
+fails; protocol 0 reads the failure. Polls at 100 (protocol 1 lets go), 149 and 150. -/
+def exampleRun : List Label :=
+  [.established 10, .deliver 0, .poll 0, .deliver 1, .poll 1, .advance 50, .open 0 1, .poll 0, .recv 10,
+   .subFail 10 0, .deliver 0, .poll 0, .advance 50, .poll 1, .poll 0, .advance 49, .poll 0, .poll 1]
+
+/-- Non-vacuity of all four parts, and the exact time: the run is enabled step by step (so its end state is
+reachable), at 149 nothing is in flight, protocol 0 still holds `10` with `last_activity = 50` and has
+polled (part 1: `149 < 150`); the clock can advance by 1 but not by 2 (the environment hypothesis: the
+sleep ends at 150); at 150 the poll of protocol 0 is the step that makes the loop exit (parts 3, 4) and
+the state after it satisfies the hypotheses of part 2. The sleep of the activity at 50 was pushed when the
+first one (pushed at 0) was still pending: no new sleep, the old one completes at 100 and is re-armed with
+the remaining 50. -/
 example :
-    let s1 := ((twoProtocols.advance 50).open 0 1).1
-    let s2 := (((s1.recv 10).1.subFail 10 0).map (fun s => (s.drain 0).1)).getD s1
-    let at149 := (s2.advance 99).pollAll
-    let at150 := (at149.advance 1).pollAll
-    permits s2 10 = 0 ∧ exits at149 10 = false ∧ handles at149.svcs 10 = 1 ∧ exits at150 10 = true := by
+    let peer : Nat → Nat := fun _ => 1
+    let r := Sys.steps peer 0 (Sys.init [(true, 100), (false, 100)]) exampleRun
+    let s149 := (r.map (·.2)).getD {}
+    let s150 := ((s149.step peer 11 (.advance 1)).map (·.2)).getD {}
+    let s150' := ((s150.step peer 11 (.poll 0)).map (·.2)).getD {}
+    (r.map (·.1)) = some 11 ∧ s149.now = 149 ∧ permits s149 10 = 0 ∧
+    (s149.svcs.map (·.holds 10)) = [1, 0] ∧ (s149.svcs.map (fun v => aget v.tr.last 10)) = [some 50, none] ∧
+    (s149.svcs.map (fun v => v.tr.timers)) = [[⟨10, some 150, 50⟩], []] ∧
+    exits s149 10 = false ∧ (s149.step peer 11 (.advance 2)) = none ∧
+    s150.now = 150 ∧ exits s150 10 = false ∧ exits s150' 10 = true ∧
+    (s150'.svcs.map (fun v => v.tr.timers)) = [[], []] := by
+  decide
+
+example : Reach (fun _ => 1) 11
+    (((Sys.steps (fun _ => 1) 0 (Sys.init [(true, 100), (false, 100)]) exampleRun).map (·.2)).getD {}) := by
+  have h : Sys.steps (fun _ => 1) 0 (Sys.init [(true, 100), (false, 100)]) exampleRun =
+      some (11, ((Sys.steps (fun _ => 1) 0 (Sys.init [(true, 100), (false, 100)]) exampleRun).map (·.2)).getD {}) := by
+    decide
+  exact Reach.steps exampleRun (Reach.init _) h
+
+/-- **Exactly at `max_p (last_activity_p + T)`** — the two directions of `idle_closed_at` put together
+along a run. From any reachable state in which no permit of `c` is around (no keep-alive substream exists
+or is being opened, nothing in flight), let nothing happen but the idle mechanism — time passing, as far as
+the environment hypothesis allows, and keep-alive polls of any protocols, in any order and number — ending
+in a state where every protocol has polled. Then the loop has exited **iff** for every protocol that held
+`c` at the start its timeout has elapsed since its last activity: not at any earlier time, and at that time
+for sure. (Protocols that did not hold `c` at the start have let go at their own `last_activity + T`
+earlier, by `idle_closed_at` 1 and 3, so this is `t₀ + T` for `t₀` the last activity of all.) -/
+theorem idle_run_closed_at {peer : Nat → Nat} {n n' : Nat} {s s' : Sys} (hr : Reach peer n s) (c : Nat)
+    (hperm : permits s c = 0) (ls : List Label) (hall : ∀ l ∈ ls, idleLabel l = true)
+    (hst : Sys.steps peer n s ls = some (n', s')) (hpolled : ∀ svc' ∈ s'.svcs, Polled svc' s'.now) :
+    exits s' c = true ↔
+      ∀ svc ∈ s.svcs, 0 < svc.holds c → ∀ la, aget svc.tr.last c = some la → la + svc.T ≤ s'.now :=
+  idle_run_exits_iff hr c hperm ls hall hst hpolled
+
+/-- Non-vacuity: from the state of `exampleRun` at time 100 (right after protocol 1 was downgraded; protocol
+0 holds `10` with `last_activity = 50`), idle runs ending at 149 and at 150, every protocol polled: the
+first has not exited, the second has; the hypotheses of the theorem hold for both. -/
+example :
+    let peer : Nat → Nat := fun _ => 1
+    let r := Sys.steps peer 0 (Sys.init [(true, 100), (false, 100)]) (List.take 15 exampleRun)
+    let s := (r.map (·.2)).getD {}
+    let a := ((Sys.steps peer 11 s [.advance 49, .poll 1, .poll 0]).map (·.2)).getD {}
+    let b := ((Sys.steps peer 11 s [.advance 49, .poll 0, .advance 1, .poll 0, .poll 1]).map (·.2)).getD {}
+    s.now = 100 ∧ permits s 10 = 0 ∧ (s.svcs.map (·.holds 10)) = [1, 0] ∧
+    (s.svcs.map (fun v => aget v.tr.last 10)) = [some 50, none] ∧
+    a.now = 149 ∧ exits a 10 = false ∧ b.now = 150 ∧ exits b 10 = true ∧
+    (b.svcs.map (fun v => v.tr.timers)) = [[], []] ∧ (a.svcs.map (fun v => v.tr.timers)) = [[⟨10, some 150, 50⟩], []] := by
+  decide
+
+/-- Non-vacuity, lazily started sleeps and the hypothesis: right after `open_substream` on a connection
+whose handle had been downgraded (tracker entry gone) the new sleep is pushed but not started, and the
+clock may not advance until the protocol has polled. -/
+example :
+    let peer : Nat → Nat := fun _ => 1
+    let r := Sys.steps peer 0 (Sys.init [(true, 100), (true, 100)])
+      [.established 10, .deliver 0, .poll 0, .deliver 1, .poll 1, .advance 60, .open 1 1, .poll 1, .advance 40, .poll 0,
+       .poll 1, .advance 10, .open 0 1]
+    let s := (r.map (·.2)).getD {}
+    (s.svcs.map (fun v => v.tr.timers)).head? = some [⟨10, none, 100⟩] ∧
+    s.step peer 11 (.advance 1) = none ∧
+    ((s.step peer 11 (.poll 0)).bind fun x => (x.2.step peer 11 (.advance 1)).map (·.2.now)) = some 111 := by
   decide
 
 /-- **Ping/identify-style traffic does not prolong.** For a protocol with
@@ -241,7 +349,9 @@ example : 0 < Consts.KEEP_ALIVE_TIMEOUT_SECS := by decide
 end Litep2pVerif.Props.C09
 
 #print axioms Litep2pVerif.Props.C09.held_not_closed
-#print axioms Litep2pVerif.Props.C09.idle_closed_at_partial
+#print axioms Litep2pVerif.Props.C09.idle_closed_at
+#print axioms Litep2pVerif.Props.C09.idle_run_closed_at
+#print axioms Litep2pVerif.Props.C09.poll_settles
 #print axioms Litep2pVerif.Props.C09.ping_no_prolong
 #print axioms Litep2pVerif.Props.C09.primary_secondary
 #print axioms Litep2pVerif.Props.C09.inbound_negotiation_holds_connection
